@@ -9,6 +9,7 @@ import (
 	"github.com/XiaoMi/Gaea/models"
 
 	"verif/harness/mycli"
+	"verif/harness/myproto"
 	"verif/harness/mysim"
 	"verif/harness/simkit"
 )
@@ -84,7 +85,13 @@ func runC18(r *simkit.Run) {
 	keep := tp.Chance(1, 3)
 	nClients := tp.Range(1, 3)
 	opsPer := tp.Range(4, 14)
-	ns := shardedNamespace("ns1", nSlices, nSlaves)
+	// a quarter of the runs have no shard rules: there CALL reaches the backend and is answered with several result sets
+	noRules := tp.Chance(1, 4)
+	mk := shardedNamespace
+	if noRules {
+		mk = baseNamespace
+	}
+	ns := mk("ns1", nSlices, nSlaves)
 	ns.SetForKeepSession = keep
 	for _, sl := range ns.Slices {
 		sl.Capacity = tp.Range(1, 2)
@@ -106,14 +113,30 @@ func runC18(r *simkit.Run) {
 	w.Cl.Logf = r.Logf
 	h := &History{W: w, inFlight: map[int]*OpRec{}}
 	w.Cl.OnReceive = func(c *mysim.Conn, st *mysim.Stmt) { st.Ev = h.tick() }
-	cfg := fmt.Sprintf("slices=%d slaves=%d keepSession=%v clients=%d ops=%d sessionTimeout5s=%v", nSlices, nSlaves, keep, nClients, opsPer, shortTimeout)
+	w.Cl.Exec = func(c *mysim.Conn, st *mysim.Stmt) *mysim.Reply {
+		if !strings.HasPrefix(strings.ToLower(strings.TrimSpace(st.SQL)), "call ") {
+			return nil
+		}
+		col := []myproto.Column{{Name: "v", Type: myproto.TLongLong, Length: 20}}
+		return &mysim.Reply{Columns: col, Rows: [][][]byte{{[]byte("1")}, {[]byte("2")}},
+			Next: &mysim.Reply{Columns: col, Rows: [][][]byte{{[]byte("3")}}, Next: &mysim.Reply{}}}
+	}
+	cfg := fmt.Sprintf("slices=%d slaves=%d keepSession=%v clients=%d ops=%d sessionTimeout5s=%v shardRules=%v", nSlices, nSlaves, keep, nClients, opsPer, shortTimeout, !noRules)
 	r.Logf("config %s", cfg)
 	finished := 0
 	for i := 0; i < nClients; i++ {
 		user := []string{"ns1_rw", "ns1_split"}[tp.Choose(2)]
 		cm := &ClientModel{Idx: i, User: user, DB: "db1", AC: true, Charset: "utf8mb4", Vars: map[string]string{}, UVars: map[string]string{}}
 		for j := 0; j < opsPer; j++ {
-			cm.Script = append(cm.Script, genTxnOp(tp, i, j, nSlices))
+			op := genTxnOp(tp, i, j, nSlices)
+			if noRules && tp.Chance(1, 5) {
+				m := markerOf(i, j)
+				op = Op{Kind: "query", SQL: fmt.Sprintf("call p_multi(%d)", m), Marker: m, Class: "write", Table: "t_plain"}
+			}
+			if noRules && op.Kind == "use" {
+				op.Arg = "db1" // (in db2 the proxy parses every statement and refuses CALL)
+			}
+			cm.Script = append(cm.Script, op)
 		}
 		h.Clients = append(h.Clients, cm)
 		name := fmt.Sprintf("client%d", i)
